@@ -222,6 +222,12 @@ func (w *vWorld) vStatement(tag string, budget int, allowBad bool) *tree.Stateme
 		if vParam("CMDV", 0) != 0 {
 			ncmd = 9
 		}
+		if allowBad && vParam("BADARG", 0) != 0 && vChoose(tag+".cmd.badarg", 2) == 1 {
+			// a registered command whose last argument fails to evaluate, after two that evaluate fine
+			cs := vCommandStmt(variable.NewString("cmd"), variable.NewNumber(3))
+			cs.CommandStatement.Elements = append(cs.CommandStatement.Elements, &tree.CommandStatementElement{Expression: vVarExpr("nosuchvar")})
+			return cs
+		}
 		switch vChoose(tag+".cmd", ncmd) {
 		case 7, 8:
 			// arguments whose values change from one execution to the next: a function call and a variable
@@ -411,7 +417,8 @@ func vNewWorld(budget int, allowBad bool) *vWorld {
 
 	// ---- continuation stack ----
 	depth := vChoose("depth", maxDepth+1)
-	stack := container.Stack[*statementQueue]{}
+	// (STACKCAP: the stack lives in a bigger backing array, as after a run that was deeper once)
+	stack := make(container.Stack[*statementQueue], 0, vParam("STACKCAP", 0))
 	queues := make([]*statementQueue, 0, depth)
 	for i := 0; i < depth; i++ {
 		ql := vChoose("q"+vItoa(i)+".len", maxQ+1)
@@ -696,6 +703,10 @@ func (w *vWorld) vSpecNext(env *vSpecEnv, K []*tree.Statement, waiting *tree.Sho
 				out.K = K
 				return out
 			case "cmd":
+				if len(el) == 3 && el[2].Expression.VariableID != nil {
+					out.fail = true // its argument does not evaluate: the handler does not run
+					return out
+				}
 				out.nCmd++
 			case "cmdv":
 				out.nCmd++
